@@ -45,6 +45,12 @@ impl EditState {
         let pos1 = pos1.into();
         let pos2 = pos2.into();
         let layer = self.get_current_layer()?;
+        if let Some(cur_layer) = self.get_cur_layer() {
+            let area = Rectangle::from_min_size(Position::default(), cur_layer.get_size());
+            if !area.is_inside(pos1) || !area.is_inside(pos2) {
+                return Err(anyhow::anyhow!("Swap position outside of the layer"));
+            }
+        }
         let op = UndoSwapChar { layer, pos1, pos2 };
         self.push_undo_action(Box::new(op))
     }
